@@ -2,7 +2,10 @@
 
 package airgapped
 
-import "github.com/corestario/kyber"
+import (
+	"github.com/corestario/kyber"
+	"github.com/syndtr/goleveldb/leveldb"
+)
 
 // VerifClose closes the machine's LevelDB handle (verification hook: lets a
 // harness reopen the machine on the same database inside one process).
@@ -20,4 +23,11 @@ func (am *Machine) VerifSecrets(dkgIdentifier string) (secKey kyber.Scalar, base
 		dealerCoeffs = inst.VerifDealerCoefficients()
 	}
 	return
+}
+
+// VerifDB returns the machine's LevelDB handle (verification hook: lets a
+// harness inject storage faults, e.g. make one entry unreadable during one
+// operation).
+func (am *Machine) VerifDB() *leveldb.DB {
+	return am.db
 }
